@@ -213,6 +213,10 @@ Fixpoint path_vars (p : list seg) : list str :=
 Definition env := list (str * pyval).
 Definition env_get (e : env) (x : str) : pyval := match alookup x e with Some v => v | None => PNone end.
 
+(* a finite table for sanitize_method_name (identity outside the table) *)
+Definition mn_of (tbl : list (str * str)) (s : str) : str :=
+  match alookup s tbl with Some x => x | None => s end.
+
 (* ================================================================== the generator, as data *)
 Section Wire.
   (* NameSanitizer.sanitize_method_name (C20's subject): instantiated in the correspondence run by the
